@@ -73,7 +73,7 @@ prop('C06', COMMON +
      'over the checker\'s Type (validation of instantiations, substitution, placeholder search) reads every child position '
      '(type arguments, parameter types, return type).',
      [gate.run_gate, gate.run_errset, gate.run_assign_all_paths, lex_bounds.run_int_range, scope.run_iflet_else,
-      lambda prog, tier, repo: scope.run_reentrant_restore(prog, tier, repo, crates=('samlang_checker',)), relation.run, relation.run_pairwise, gate.run_exhaustive_gate, gate.run_placeholder_ordinal, type_walker.make(('samlang_checker',), 6), TI.make(['T-chk', 'T-ssa'])])
+      lambda prog, tier, repo: scope.run_reentrant_restore(prog, tier, repo, crates=('samlang_checker',)), relation.run, relation.run_pairwise, gate.run_exhaustive_gate, gate.run_placeholder_ordinal, gate.run_private_guard, type_walker.make(('samlang_checker',), 6), TI.make(['T-chk', 'T-ssa'])])
 
 prop('C08', COMMON +
      'TRAVERSAL/SIBLING: the pretty-printer reads every expression, pattern, annotation, identifier and literal slot of '
@@ -100,7 +100,7 @@ prop('C09', COMMON +
      'comment reference or delegates the element on every path (lazy closures do not count). LINE-COMMENT-BREAK: a line-comment document is immediately followed '
      'by the constant hard line break in the sequence it is emitted into. TRAVERSAL/SIBLING(T-prc): the printer reads every comment-reference slot. Does not decide '
      'idempotence of the layout nor that a stored comment is printed in the right place.',
-     [comment_linear.run, comment_linear.run_fresh_reference, comment_linear.run_comment_order, printer_rules.run_id_comment_pair, printer_rules.run_line_comment_break, printer_rules.run_element_comments, TI.make(['T-prc'])])
+     [comment_linear.run, comment_linear.run_fresh_reference, comment_linear.run_comment_order, comment_linear.run_comment_ref_unique, printer_rules.run_id_comment_pair, printer_rules.run_line_comment_break, printer_rules.run_element_comments, TI.make(['T-prc'])])
 
 prop('C11', COMMON +
      'TRAVERSAL/SIBLING(T-gc): the PStr-bearing fields reachable from Module<Arc<Type>> (type walk over the ADT table) '
